@@ -63,6 +63,9 @@ func init() {
 		"exploration is seeded random sampling of schedules/faults: absence of a violation is evidence, not proof",
 	}
 	rdRule := "delivery history produced by a seeded fault pipeline (sender with jumps around window/word/half-space sizes, loss, duplication, delay/reordering, attacker replays, authentication failures); configuration swarm over window sizes and maxima. Non-trivial: >=1 replay attempt refused and >=3 numbers accepted; distinct = hash of (configuration, history). No interleaving is explored (sequential code)"
+	def("Z00", &propCfg{Dir: "zz", Pkgs: []string{"zzverif/probe"}, QuickS: 10,
+		Components: []string{"self-test of the instrumenter: sync.Cond, embedded mutexes, RWMutex.TryLock, context.AfterFunc, sync.Pool, method values"},
+		Rule:       "producer/consumer programs over a Cond-based queue and friends; no property of pion/transport"})
 	def("C04", &propCfg{Dir: "c04", Pkgs: []string{"replaydetector"},
 		Components: []string{"real: replaydetector (plain and wrapping)", "simulated environment: sender/network/attacker/auth pipeline"}, Assumptions: stdAssume, Rule: rdRule})
 	def("C05", &propCfg{Dir: "c04", Pkgs: []string{"replaydetector"},
@@ -145,6 +148,9 @@ func main() {
 	if os.Args[1] == "--list" {
 		var ids []string
 		for id := range props {
+			if strings.HasPrefix(id, "Z") {
+				continue // self-tests of the machinery, not properties
+			}
 			ids = append(ids, id)
 		}
 		sort.Strings(ids)
@@ -240,7 +246,7 @@ func build(id string, pc *propCfg, scratch string) (string, error) {
 	}
 	zz := filepath.Join(repo, "zzverif")
 	_ = os.MkdirAll(zz, 0o755)
-	for _, p := range []string{"simrt", "simnet", "harn"} {
+	for _, p := range []string{"simrt", "simnet", "harn", "probe"} {
 		if out, err := sh("/", nil, "rsync", "-a", filepath.Join(verifDir, "sim", p)+"/", filepath.Join(zz, p)+"/"); err != nil {
 			return "", fmt.Errorf("copy %s: %v\n%s", p, err, out)
 		}
